@@ -131,4 +131,17 @@ def prepare(ctx):
         ok2, log2 = build(['driver'])
         if not ok2:
             raise ToolTrouble('the model driver does not build:\n' + log2[-3000:])
+    # thorough tier: the toolchain's independent re-checker replays the property module's declarations from the
+    # compiled .olean (a second opinion on what the elaborator's kernel accepted); a rejection breaks the obligations
+    if ok and getattr(ctx, 'tier', 'quick') == 'thorough' and os.environ.get('VERIF_NO_LEANCHECKER') != '1':
+        t1 = time.time()
+        try:
+            code, out = _run(['lake', 'env', 'leanchecker', f'HabuVerif.Props.{ctx.pid}'], LEAN_DIR, 1800)
+        except Exception as e:  # noqa: BLE001
+            code, out = 2, f'leanchecker could not run: {e}'
+        bad = code != 0 or 'uncaught exception' in out or 'error' in out.lower()
+        ctx.leanchecker = {'module': f'HabuVerif.Props.{ctx.pid}', 'ok': not bad, 'seconds': round(time.time() - t1, 1)}
+        if bad:
+            ctx.build_ok = False
+            ctx.build_log = (log + '\nleanchecker: ' + out[-2000:])
     ctx.prepare_s = time.time() - t0
